@@ -2,7 +2,6 @@ package engine
 
 import (
 	"fmt"
-	"sync/atomic"
 
 	gocvss40 "github.com/pandatix/go-cvss/40"
 
@@ -49,9 +48,9 @@ func sweepV3Lift[T comparable, P Object[T]](r *Report, im *Impl[T, P], devs []v3
 		dims[d.m] = Dim{M: mod, Vals: vals}
 		bg[d.m] = int8(d.b)
 	}
-	var n atomic.Int64
+	var n Counter
 	Iterate(im, dims, bg, 16, func(idx int, a spec.Assignment, o *T) {
-		n.Add(1)
+		n.Add(idx, 1)
 		if key, exp, obs := each(a, o); key != "" {
 			ac := a.Clone()
 			r.Violation(Case{Kind: "v3-score", Key: key, Expected: exp, Observed: obs + " on " + P(o).Vector(),
@@ -85,7 +84,7 @@ func sweepV3AllOverridden[T comparable, P Object[T]](r *Report, im *Impl[T, P], 
 		dims = append(dims, Dim{M: mod, Vals: vals})
 	}
 	dims = append(dims, FullDims(ver, []int{8, 9, 10, 11, 12, 13})...)
-	var n atomic.Int64
+	var n Counter
 	Iterate(im, dims, bg, 16, func(idx int, a spec.Assignment, o *T) {
 		// set base metrics to a rotation of the effective values on a copy
 		oo := *o
@@ -95,7 +94,7 @@ func sweepV3AllOverridden[T comparable, P Object[T]](r *Report, im *Impl[T, P], 
 			aa[m] = int8((int(a[14+m]-1) + rot) % rad)
 			P(&oo).Set(ver.Metrics[m].Abv, ver.Metrics[m].Values[aa[m]])
 		}
-		n.Add(1)
+		n.Add(idx, 1)
 		if key, exp, obs := each(aa, &oo); key != "" {
 			r.Violation(Case{Kind: "v3-score", Key: key, Expected: exp, Observed: obs + " on " + P(&oo).Vector(),
 				Args: map[string]any{"version": ver.Name, "vector": ver.Full(aa)}}, nil)
